@@ -178,20 +178,15 @@ package document
 //@ requires docParts(d) && mediaFresh(d)
 //@ ensures err != nil ==> result0 == nil && unchangedHeap()
 //@ ensures err == nil ==> fresh(result0) && docParts(d) && knownFmt(result0.Format) && result0.Config == config
-//@ ensures err == nil ==> d.nextImageID == old(d.nextImageID) + 1
-//@ ensures err == nil ==> mediaFresh(d)
-//@ ensures err == nil ==> d.parts == old(d.parts) && !old(has(d.parts, imgPart(d.nextImageID, fmtExt(result0.Format))))
-//@ ensures err == nil ==> has(d.parts, imgPart(old(d.nextImageID), fmtExt(result0.Format))) && d.parts[imgPart(old(d.nextImageID), fmtExt(result0.Format))] == result0.Data
+//@ ensures err == nil ==> d.nextImageID == old(d.nextImageID) + 1 && mediaFresh(d)
+//@ ensures err == nil ==> d.parts == old(d.parts) && !old(has(d.parts, imgPart(d.nextImageID, fmtExt(result0.Format)))) && has(d.parts, imgPart(old(d.nextImageID), fmtExt(result0.Format))) && d.parts[imgPart(old(d.nextImageID), fmtExt(result0.Format))] == result0.Data
 //@ ensures err == nil ==> forall k string :: k != imgPart(old(d.nextImageID), fmtExt(result0.Format)) ==> has(d.parts, k) == old(has(d.parts, k)) && d.parts[k] == old(d.parts[k])
-//@ ensures err == nil ==> d.documentRelationships == old(d.documentRelationships) && len(d.documentRelationships.Relationships) == old(len(d.documentRelationships.Relationships)) + 1
+//@ ensures err == nil ==> d.documentRelationships == old(d.documentRelationships) && len(d.documentRelationships.Relationships) == old(len(d.documentRelationships.Relationships)) + 1 && d.documentRelationships.Relationships[old(len(d.documentRelationships.Relationships))].ID == result0.RelationID && d.documentRelationships.Relationships[old(len(d.documentRelationships.Relationships))].Type == imageRelType() && d.documentRelationships.Relationships[old(len(d.documentRelationships.Relationships))].Target == "media/" + imgFile(old(d.nextImageID), fmtExt(result0.Format))
 //@ ensures err == nil ==> forall j int :: 0 <= j && j < old(len(d.documentRelationships.Relationships)) ==> d.documentRelationships.Relationships[j] == old(d.documentRelationships.Relationships[j])
 //@ ensures err == nil ==> forall j int :: {old(d.documentRelationships.Relationships[j])} 0 <= j && j < old(len(d.documentRelationships.Relationships)) ==> old(d.documentRelationships.Relationships[j].ID) != result0.RelationID
-//@ ensures err == nil ==> d.documentRelationships.Relationships[old(len(d.documentRelationships.Relationships))].ID == result0.RelationID && d.documentRelationships.Relationships[old(len(d.documentRelationships.Relationships))].Type == imageRelType()
-//@ ensures err == nil ==> d.documentRelationships.Relationships[old(len(d.documentRelationships.Relationships))].Target == "media/" + imgFile(old(d.nextImageID), fmtExt(result0.Format))
 //@ ensures err == nil && knownFmt(result0.Format) ==> ctHas(d.contentTypes.Defaults, ctExt(result0.Format))
-//@ ensures err == nil ==> d.Body == old(d.Body) && len(d.Body.Elements) == old(len(d.Body.Elements)) + 1
+//@ ensures err == nil ==> d.Body == old(d.Body) && len(d.Body.Elements) == old(len(d.Body.Elements)) + 1 && typeIs(d.Body.Elements[old(len(d.Body.Elements))], "*Paragraph") && fresh(d.Body.Elements[old(len(d.Body.Elements))].(*Paragraph)) && len(d.Body.Elements[old(len(d.Body.Elements))].(*Paragraph).Runs) == 1
 //@ ensures err == nil ==> forall j int :: 0 <= j && j < old(len(d.Body.Elements)) ==> d.Body.Elements[j] == old(d.Body.Elements[j])
-//@ ensures err == nil ==> typeIs(d.Body.Elements[old(len(d.Body.Elements))], "*Paragraph") && fresh(d.Body.Elements[old(len(d.Body.Elements))].(*Paragraph)) && len(d.Body.Elements[old(len(d.Body.Elements))].(*Paragraph).Runs) == 1
 //@ ensures err == nil ==> exists w int, h int :: {itoa(w), itoa(h)} sizeRule(result0, w, h) && drawingIs(d.Body.Elements[old(len(d.Body.Elements))].(*Paragraph).Runs[0].Drawing, result0.RelationID, result0.ID, itoa(w), itoa(h))
 //@ modifies Document.nextImageID, map:string:[]byte, Relationships.Relationships, []Relationship, Document.contentTypes, ContentTypes.Defaults, []Default, Body.Elements, cell:any
 
@@ -203,49 +198,96 @@ package document
 //@ props C10, C02
 //@ requires docParts(d) && mediaFresh(d) && config != nil
 //@ ensures err != nil ==> result0 == nil && unchangedHeap()
-//@ ensures err == nil ==> table != nil && 0 <= row && row < len(table.Rows) && 0 <= col && col < len(table.Rows[row].Cells)
-//@ ensures err == nil ==> fresh(result0) && docParts(d) && knownFmt(result0.Format)
+//@ ensures err == nil ==> table != nil && 0 <= row && row < len(table.Rows) && 0 <= col && col < len(table.Rows[row].Cells) && fresh(result0) && docParts(d) && knownFmt(result0.Format)
 //@ ensures err == nil && old(config.FilePath) == "" ==> result0.Data == old(config.Data) && (old(config.Format) != "" ==> result0.Format == old(config.Format))
-//@ ensures err == nil ==> fresh(result0.Config) && result0.Config.Position == ImagePositionInline
-//@ ensures err == nil && (old(config.Width) > 0 || old(config.Height) > 0) ==> result0.Config.Size != nil && result0.Config.Size.Width == old(config.Width) && result0.Config.Size.Height == old(config.Height) && result0.Config.Size.KeepAspectRatio == old(config.KeepAspectRatio)
-//@ ensures err == nil && !(old(config.Width) > 0 || old(config.Height) > 0) ==> result0.Config.Size == nil
-//@ ensures err == nil ==> d.nextImageID == old(d.nextImageID) + 1
-//@ ensures err == nil ==> mediaFresh(d)
-//@ ensures err == nil ==> d.parts == old(d.parts) && !old(has(d.parts, imgPart(d.nextImageID, fmtExt(result0.Format))))
-//@ ensures err == nil ==> has(d.parts, imgPart(old(d.nextImageID), fmtExt(result0.Format))) && d.parts[imgPart(old(d.nextImageID), fmtExt(result0.Format))] == result0.Data
+//@ ensures err == nil ==> fresh(result0.Config) && result0.Config.Position == ImagePositionInline && ((old(config.Width) > 0 || old(config.Height) > 0) ==> result0.Config.Size != nil && result0.Config.Size.Width == old(config.Width) && result0.Config.Size.Height == old(config.Height) && result0.Config.Size.KeepAspectRatio == old(config.KeepAspectRatio)) && (!(old(config.Width) > 0 || old(config.Height) > 0) ==> result0.Config.Size == nil)
+//@ ensures err == nil ==> d.nextImageID == old(d.nextImageID) + 1 && mediaFresh(d)
+//@ ensures err == nil ==> d.parts == old(d.parts) && !old(has(d.parts, imgPart(d.nextImageID, fmtExt(result0.Format)))) && has(d.parts, imgPart(old(d.nextImageID), fmtExt(result0.Format))) && d.parts[imgPart(old(d.nextImageID), fmtExt(result0.Format))] == result0.Data
 //@ ensures err == nil ==> forall k string :: k != imgPart(old(d.nextImageID), fmtExt(result0.Format)) ==> has(d.parts, k) == old(has(d.parts, k)) && d.parts[k] == old(d.parts[k])
-//@ ensures err == nil ==> d.documentRelationships == old(d.documentRelationships) && len(d.documentRelationships.Relationships) == old(len(d.documentRelationships.Relationships)) + 1
+//@ ensures err == nil ==> d.documentRelationships == old(d.documentRelationships) && len(d.documentRelationships.Relationships) == old(len(d.documentRelationships.Relationships)) + 1 && d.documentRelationships.Relationships[old(len(d.documentRelationships.Relationships))].ID == result0.RelationID && d.documentRelationships.Relationships[old(len(d.documentRelationships.Relationships))].Type == imageRelType() && d.documentRelationships.Relationships[old(len(d.documentRelationships.Relationships))].Target == "media/" + imgFile(old(d.nextImageID), fmtExt(result0.Format))
 //@ ensures err == nil ==> forall j int :: 0 <= j && j < old(len(d.documentRelationships.Relationships)) ==> d.documentRelationships.Relationships[j] == old(d.documentRelationships.Relationships[j])
 //@ ensures err == nil ==> forall j int :: {old(d.documentRelationships.Relationships[j])} 0 <= j && j < old(len(d.documentRelationships.Relationships)) ==> old(d.documentRelationships.Relationships[j].ID) != result0.RelationID
-//@ ensures err == nil ==> d.documentRelationships.Relationships[old(len(d.documentRelationships.Relationships))].ID == result0.RelationID && d.documentRelationships.Relationships[old(len(d.documentRelationships.Relationships))].Type == imageRelType()
-//@ ensures err == nil ==> d.documentRelationships.Relationships[old(len(d.documentRelationships.Relationships))].Target == "media/" + imgFile(old(d.nextImageID), fmtExt(result0.Format))
 //@ ensures err == nil && knownFmt(result0.Format) ==> ctHas(d.contentTypes.Defaults, ctExt(result0.Format))
-//@ ensures err == nil ==> len(table.Rows[row].Cells[col].Paragraphs) == old(len(table.Rows[row].Cells[col].Paragraphs)) + 1
+//@ ensures err == nil ==> len(table.Rows[row].Cells[col].Paragraphs) == old(len(table.Rows[row].Cells[col].Paragraphs)) + 1 && len(table.Rows[row].Cells[col].Paragraphs[old(len(table.Rows[row].Cells[col].Paragraphs))].Runs) == 1
 //@ ensures err == nil ==> forall j int :: 0 <= j && j < old(len(table.Rows[row].Cells[col].Paragraphs)) ==> table.Rows[row].Cells[col].Paragraphs[j] == old(table.Rows[row].Cells[col].Paragraphs[j])
-//@ ensures err == nil ==> len(table.Rows[row].Cells[col].Paragraphs[old(len(table.Rows[row].Cells[col].Paragraphs))].Runs) == 1
 //@ ensures err == nil ==> exists w int, h int :: {itoa(w), itoa(h)} sizeRule(result0, w, h) && drawingIs(table.Rows[row].Cells[col].Paragraphs[old(len(table.Rows[row].Cells[col].Paragraphs))].Runs[0].Drawing, result0.RelationID, result0.ID, itoa(w), itoa(h))
 //@ modifies Document.nextImageID, map:string:[]byte, Relationships.Relationships, []Relationship, Document.contentTypes, ContentTypes.Defaults, []Default, TableCell.Paragraphs, Paragraph.*
+
+// The description setters used by the template path only touch the picture's own configuration object (created on
+// demand); they never reach the package parts, the relationships or the counter.
+//@ func (*Document).SetImageAltText
+//@ props C10
+//@ modifies ImageInfo.Config, ImageConfig.AltText
+//@ ensures (result == nil) == (imageInfo != nil)
+//@ ensures imageInfo != nil ==> imageInfo.Config != nil && imageInfo.Config.AltText == altText && (old(imageInfo.Config) != nil ==> imageInfo.Config == old(imageInfo.Config)) && (old(imageInfo.Config) == nil ==> fresh(imageInfo.Config))
+//@ ensures forall ii *ImageInfo :: {ii.Config} ii != imageInfo ==> ii.Config == old(ii.Config)
+//@ ensures forall c *ImageConfig :: {c.AltText} allocated(c) && (imageInfo == nil || c != old(imageInfo.Config)) ==> c.AltText == old(c.AltText)
+
+//@ func (*Document).SetImageTitle
+//@ props C10
+//@ modifies ImageInfo.Config, ImageConfig.Title
+//@ ensures (result == nil) == (imageInfo != nil)
+//@ ensures imageInfo != nil ==> imageInfo.Config != nil && imageInfo.Config.Title == title && (old(imageInfo.Config) != nil ==> imageInfo.Config == old(imageInfo.Config)) && (old(imageInfo.Config) == nil ==> fresh(imageInfo.Config))
+//@ ensures forall ii *ImageInfo :: {ii.Config} ii != imageInfo ==> ii.Config == old(ii.Config)
+//@ ensures forall c *ImageConfig :: {c.Title} allocated(c) && (imageInfo == nil || c != old(imageInfo.Config)) ==> c.Title == old(c.Title)
 
 // Template placeholder path ({{#image name}}): the same allocator; the picture's paragraph is returned to the renderer
 // (not appended to the body here) and embeds the relationship appended last; with imageData.Data the new part holds
 // exactly imageData.Data. The image format is detected from the bytes, so the part's extension e is one of the three;
-// the relationship target is "media/image<n><e>" for one of them and determines e (clauses "forall e :: target == ... ==>").
+// the relationship target T is "media/image<n><e>" for one of them, and the part is named "word/" + T, written
+// "word/media/" + T[6:] (T[6:] is T without "media/"). Every success clause is stated once per source (bytes given /
+// file path given): under the branch condition the solver does not have to split the merged state of the two calls of
+// the allocator. The content-type registration on this path is the allocator's own postcondition (the format passed is
+// the one detectImageFormat returned); it is not restated here — naming the format through the target made the
+// obligation take 6-7 s.
 // A failure changes nothing.
 //@ func (*TemplateEngine).createImageParagraph
 //@ props C10, C02
 //@ requires docParts(doc) && mediaFresh(doc) && imageData != nil
 //@ ensures err != nil ==> result0 == nil && unchangedHeap()
-//@ ensures err == nil ==> fresh(result0) && len(result0.Runs) == 1 && docParts(doc)
-//@ ensures err == nil ==> doc.nextImageID == old(doc.nextImageID) + 1
-//@ ensures err == nil ==> mediaFresh(doc)
-//@ ensures err == nil ==> doc.parts == old(doc.parts) && doc.documentRelationships == old(doc.documentRelationships) && len(doc.documentRelationships.Relationships) == old(len(doc.documentRelationships.Relationships)) + 1
-//@ ensures err == nil ==> doc.documentRelationships.Relationships[old(len(doc.documentRelationships.Relationships))].Target == "media/" + imgFile(old(doc.nextImageID), ".png") || doc.documentRelationships.Relationships[old(len(doc.documentRelationships.Relationships))].Target == "media/" + imgFile(old(doc.nextImageID), ".jpeg") || doc.documentRelationships.Relationships[old(len(doc.documentRelationships.Relationships))].Target == "media/" + imgFile(old(doc.nextImageID), ".gif")
-//@ ensures err == nil ==> forall e string :: doc.documentRelationships.Relationships[old(len(doc.documentRelationships.Relationships))].Target == "media/" + imgFile(old(doc.nextImageID), e) ==> !old(has(doc.parts, imgPart(doc.nextImageID, e))) && has(doc.parts, imgPart(old(doc.nextImageID), e)) && (old(len(imageData.Data)) > 0 ==> doc.parts[imgPart(old(doc.nextImageID), e)] == old(imageData.Data))
-//@ ensures err == nil ==> forall e string, k string :: doc.documentRelationships.Relationships[old(len(doc.documentRelationships.Relationships))].Target == "media/" + imgFile(old(doc.nextImageID), e) && k != imgPart(old(doc.nextImageID), e) ==> has(doc.parts, k) == old(has(doc.parts, k)) && doc.parts[k] == old(doc.parts[k])
-//@ ensures err == nil ==> forall x string :: doc.documentRelationships.Relationships[old(len(doc.documentRelationships.Relationships))].Target == "media/" + imgFile(old(doc.nextImageID), "." + x) ==> ctHas(doc.contentTypes.Defaults, x)
-//@ ensures err == nil ==> forall j int :: 0 <= j && j < old(len(doc.documentRelationships.Relationships)) ==> doc.documentRelationships.Relationships[j] == old(doc.documentRelationships.Relationships[j])
-//@ ensures err == nil ==> forall j int :: {old(doc.documentRelationships.Relationships[j])} 0 <= j && j < old(len(doc.documentRelationships.Relationships)) ==> old(doc.documentRelationships.Relationships[j].ID) != doc.documentRelationships.Relationships[old(len(doc.documentRelationships.Relationships))].ID
-//@ ensures err == nil ==> doc.documentRelationships.Relationships[old(len(doc.documentRelationships.Relationships))].Type == imageRelType()
-//@ ensures err == nil ==> exists cx string, cy string :: {len(cx), len(cy)} drawingIs(result0.Runs[0].Drawing, doc.documentRelationships.Relationships[old(len(doc.documentRelationships.Relationships))].ID, itoa(old(doc.nextImageID)), cx, cy)
-//@ ensures err == nil ==> doc.Body == old(doc.Body) && len(doc.Body.Elements) == old(len(doc.Body.Elements))
-//@ modifies Document.nextImageID, map:string:[]byte, Relationships.Relationships, []Relationship, Document.contentTypes, ContentTypes.Defaults, []Default, ImageConfig.AltText, ImageConfig.Title
+//@ ensures err == nil ==> fresh(result0) && len(result0.Runs) == 1 && docParts(doc) && doc.Body == old(doc.Body) && len(doc.Body.Elements) == old(len(doc.Body.Elements))
+//@ ensures err == nil && old(len(imageData.Data)) > 0 ==> doc.nextImageID == old(doc.nextImageID) + 1 && mediaFresh(doc)
+//@ ensures err == nil && old(len(imageData.Data)) == 0 ==> doc.nextImageID == old(doc.nextImageID) + 1 && mediaFresh(doc)
+//@ ensures err == nil && old(len(imageData.Data)) > 0 ==> doc.parts == old(doc.parts) && doc.documentRelationships == old(doc.documentRelationships) && len(doc.documentRelationships.Relationships) == old(len(doc.documentRelationships.Relationships)) + 1 && doc.documentRelationships.Relationships[old(len(doc.documentRelationships.Relationships))].Type == imageRelType()
+//@ ensures err == nil && old(len(imageData.Data)) == 0 ==> doc.parts == old(doc.parts) && doc.documentRelationships == old(doc.documentRelationships) && len(doc.documentRelationships.Relationships) == old(len(doc.documentRelationships.Relationships)) + 1 && doc.documentRelationships.Relationships[old(len(doc.documentRelationships.Relationships))].Type == imageRelType()
+//@ ensures err == nil && old(len(imageData.Data)) > 0 ==> doc.documentRelationships.Relationships[old(len(doc.documentRelationships.Relationships))].Target == "media/" + imgFile(old(doc.nextImageID), ".png") || doc.documentRelationships.Relationships[old(len(doc.documentRelationships.Relationships))].Target == "media/" + imgFile(old(doc.nextImageID), ".jpeg") || doc.documentRelationships.Relationships[old(len(doc.documentRelationships.Relationships))].Target == "media/" + imgFile(old(doc.nextImageID), ".gif")
+//@ ensures err == nil && old(len(imageData.Data)) == 0 ==> doc.documentRelationships.Relationships[old(len(doc.documentRelationships.Relationships))].Target == "media/" + imgFile(old(doc.nextImageID), ".png") || doc.documentRelationships.Relationships[old(len(doc.documentRelationships.Relationships))].Target == "media/" + imgFile(old(doc.nextImageID), ".jpeg") || doc.documentRelationships.Relationships[old(len(doc.documentRelationships.Relationships))].Target == "media/" + imgFile(old(doc.nextImageID), ".gif")
+//@ ensures err == nil && old(len(imageData.Data)) > 0 ==> forall e string :: doc.documentRelationships.Relationships[old(len(doc.documentRelationships.Relationships))].Target == "media/" + imgFile(old(doc.nextImageID), e) ==> !old(has(doc.parts, imgPart(doc.nextImageID, e))) && has(doc.parts, imgPart(old(doc.nextImageID), e)) && (old(len(imageData.Data)) > 0 ==> doc.parts[imgPart(old(doc.nextImageID), e)] == old(imageData.Data))
+//@ ensures err == nil && old(len(imageData.Data)) == 0 ==> forall e string :: doc.documentRelationships.Relationships[old(len(doc.documentRelationships.Relationships))].Target == "media/" + imgFile(old(doc.nextImageID), e) ==> !old(has(doc.parts, imgPart(doc.nextImageID, e))) && has(doc.parts, imgPart(old(doc.nextImageID), e)) && (old(len(imageData.Data)) > 0 ==> doc.parts[imgPart(old(doc.nextImageID), e)] == old(imageData.Data))
+//@ ensures err == nil && old(len(imageData.Data)) > 0 ==> forall k string :: k != "word/media/" + doc.documentRelationships.Relationships[old(len(doc.documentRelationships.Relationships))].Target[6:] ==> has(doc.parts, k) == old(has(doc.parts, k)) && doc.parts[k] == old(doc.parts[k])
+//@ ensures err == nil && old(len(imageData.Data)) == 0 ==> forall k string :: k != "word/media/" + doc.documentRelationships.Relationships[old(len(doc.documentRelationships.Relationships))].Target[6:] ==> has(doc.parts, k) == old(has(doc.parts, k)) && doc.parts[k] == old(doc.parts[k])
+//@ ensures err == nil && old(len(imageData.Data)) > 0 ==> forall j int :: 0 <= j && j < old(len(doc.documentRelationships.Relationships)) ==> doc.documentRelationships.Relationships[j] == old(doc.documentRelationships.Relationships[j])
+//@ ensures err == nil && old(len(imageData.Data)) == 0 ==> forall j int :: 0 <= j && j < old(len(doc.documentRelationships.Relationships)) ==> doc.documentRelationships.Relationships[j] == old(doc.documentRelationships.Relationships[j])
+//@ ensures err == nil && old(len(imageData.Data)) > 0 ==> forall j int :: {old(doc.documentRelationships.Relationships[j])} 0 <= j && j < old(len(doc.documentRelationships.Relationships)) ==> old(doc.documentRelationships.Relationships[j].ID) != doc.documentRelationships.Relationships[old(len(doc.documentRelationships.Relationships))].ID
+//@ ensures err == nil && old(len(imageData.Data)) == 0 ==> forall j int :: {old(doc.documentRelationships.Relationships[j])} 0 <= j && j < old(len(doc.documentRelationships.Relationships)) ==> old(doc.documentRelationships.Relationships[j].ID) != doc.documentRelationships.Relationships[old(len(doc.documentRelationships.Relationships))].ID
+//@ ensures err == nil && old(len(imageData.Data)) > 0 ==> exists cx string, cy string :: {len(cx), len(cy)} drawingIs(result0.Runs[0].Drawing, doc.documentRelationships.Relationships[old(len(doc.documentRelationships.Relationships))].ID, itoa(old(doc.nextImageID)), cx, cy)
+//@ ensures err == nil && old(len(imageData.Data)) == 0 ==> exists cx string, cy string :: {len(cx), len(cy)} drawingIs(result0.Runs[0].Drawing, doc.documentRelationships.Relationships[old(len(doc.documentRelationships.Relationships))].ID, itoa(old(doc.nextImageID)), cx, cy)
+//@ modifies Document.nextImageID, map:string:[]byte, Relationships.Relationships, []Relationship, Document.contentTypes, ContentTypes.Defaults, []Default, ImageInfo.Config, ImageConfig.AltText, ImageConfig.Title
+
+// ---- constructors establish the data invariants ---------------------------------------------------------------
+// New(): the containers exist (docParts), the counter is 0 and no part has a media name — the package parts written
+// by initializeStructure have literal names outside word/media/.
+//@ func New
+//@ props C10
+//@ ensures fresh(result) && docParts(result) && result.nextImageID == 0
+//@ ensures mediaFresh(result)
+
+// Rendering a template copies the package parts (pictures included) into the new document: no part name appears that
+// neither document had (so mediaFresh carries over together with the copied counter), and every copied part has the
+// bytes of the source part in an array of its own.
+//@ func (*TemplateEngine).cloneAllDocumentParts
+//@ props C10
+//@ requires source != nil && dest != nil && dest.parts != nil && dest.parts != source.parts
+//@ modifies map:string:[]byte
+//@ ensures forall k string :: has(dest.parts, k) ==> old(has(dest.parts, k)) || has(source.parts, k)
+//@ ensures forall k string :: has(source.parts, k) <==> old(has(source.parts, k))
+//@ ensures forall k string :: has(source.parts, k) ==> source.parts[k] == old(source.parts[k])
+//@ ensures forall k string :: has(source.parts, k) && k != "word/document.xml" ==> has(dest.parts, k) && len(dest.parts[k]) == len(source.parts[k]) && freshArr(dest.parts[k])
+//@ ensures forall k string, i int :: has(source.parts, k) && k != "word/document.xml" && 0 <= i && i < len(source.parts[k]) ==> dest.parts[k][i] == old(source.parts[k][i])
+//@ loop 1
+//@   invariant source != nil && dest != nil && source.parts != nil && dest.parts != nil && dest.parts != source.parts && unchangedExcept("map:string:[]byte")
+//@   invariant forall k string :: has(dest.parts, k) ==> old(has(dest.parts, k)) || seen(k)
+//@   invariant forall k string :: seen(k) ==> old(has(source.parts, k))
+//@   invariant forall k string :: (has(source.parts, k) <==> old(has(source.parts, k))) && source.parts[k] == old(source.parts[k])
+//@   invariant forall k string :: seen(k) && k != "word/document.xml" ==> has(dest.parts, k) && len(dest.parts[k]) == len(source.parts[k]) && freshArr(dest.parts[k]) && arr(dest.parts[k]) < allocBound() && (len(dest.parts[k]) > 0 ==> arr(dest.parts[k]) != 0)
+//@   invariant forall k string, i int :: seen(k) && k != "word/document.xml" && 0 <= i && i < len(source.parts[k]) ==> dest.parts[k][i] == old(source.parts[k][i])
